@@ -70,7 +70,9 @@ T pop_arg(va_struct *vsp, format_options *opts) {
 			*get_union_member(i) = arg;
 		}
 
-		vsp->num_args = opts->arg_pos + 1;
+		// Arguments up to num_args are cached already; a lower position must not shrink that.
+		if(vsp->num_args <= opts->arg_pos)
+			vsp->num_args = opts->arg_pos + 1;
 		return *get_union_member(opts->arg_pos);
 	}
 
